@@ -3,6 +3,7 @@ package main
 import (
 	"fmt"
 	"go/ast"
+	"go/token"
 	"go/types"
 	"strings"
 )
@@ -85,6 +86,12 @@ func (env *SpecEnv) ghostCall(name string, x *ast.CallExpr) (Val, bool) {
 		return mkVal(tByte, Select(Select(h, a), i)), true
 	case "emptykey":
 		return intVal(App("ckey_empty", SInt)), true
+	case "rawrow":
+		// rawrow(a): the whole byte array with id a in this state (array-valued; only for equalities)
+		a := env.eval(x.Args[0]).C[0]
+		cp := layout(tByte)[0]
+		h := vc.heapIn(env.st, heapNameFor(tByte, cp), heapSort(cp))
+		return Val{T: nil, C: []*Term{Select(h, a)}}, true
 	case "nextarr":
 		return intVal(vc.heapIn(env.st, "$nextArr", SInt)), true
 	case "tracelen":
@@ -416,6 +423,17 @@ func (vc *VC) evalCall(x *ast.CallExpr, st *State) Val {
 		}
 	}
 	fn, sel := vc.calleeOf(x)
+	if fn != nil && funcFullName(fn) == "github.com/matryer/try.Do" && len(x.Args) == 1 {
+		if lit, ok := unparen(x.Args[0]).(*ast.FuncLit); ok {
+			// A-try: try.Do(f) = the last execution of f's body (earlier failed attempts leave no effect); its error is f's error
+			res := vc.inlineClosure(lit, st)
+			if tup, ok := res.T.(*types.Tuple); ok && tup.Len() == 2 {
+				n0 := len(layout(tup.At(0).Type()))
+				return Val{T: tup.At(1).Type(), C: res.C[n0:]}
+			}
+			return vc.opaque(rt, "try")
+		}
+	}
 	if fn == nil {
 		// call through function value
 		fv := vc.eval(x.Fun, st)
@@ -933,7 +951,7 @@ func (vc *VC) inlineCall(x ast.Node, fi *FuncInfo, args []Val, st *State, rt typ
 	sub := &VC{prog: vc.prog, fi: fi, pkg: fi.Pkg, info: fi.Pkg.TypesInfo, con: nil, unit: vc.unit, log: vc.log, obls: vc.obls,
 		freshN: vc.freshN, occ: vc.occ, nodeOcc: vc.nodeOcc, entry: vc.entry, abstr: vc.abstr, heapSorts: vc.heapSorts,
 		rangeFacts: vc.rangeFacts, globalsInit: vc.globalsInit, addrTaken: map[types.Object]bool{}, callDepth: vc.callDepth + 1,
-		assumedContracts: vc.assumedContracts, sweep: true, origins: vc.origins, ghost: vc.ghost}
+		assumedContracts: vc.assumedContracts, sweep: true, origins: vc.origins, ghost: vc.ghost, strKeys: vc.strKeys}
 	sub.loopOrd, _ = numberLoops(fi.Decl.Body)
 	inner := &State{pc: st.pc, vars: map[types.Object]Val{}, heaps: st.heaps}
 	sig := fi.Obj.Type().(*types.Signature)
@@ -1191,4 +1209,67 @@ func mentionsTrace(e ast.Expr) bool {
 		return !found
 	})
 	return found
+}
+
+// inlineClosure executes the body of a function literal once in the current state (captured variables are shared).
+func (vc *VC) inlineClosure(lit *ast.FuncLit, st *State) Val {
+	sub := &VC{prog: vc.prog, fi: vc.fi, pkg: vc.pkg, info: vc.info, con: nil, unit: vc.unit, log: vc.log, obls: vc.obls,
+		freshN: vc.freshN, occ: vc.occ, nodeOcc: vc.nodeOcc, entry: vc.entry, abstr: vc.abstr, heapSorts: vc.heapSorts,
+		rangeFacts: vc.rangeFacts, globalsInit: vc.globalsInit, addrTaken: vc.addrTaken, callDepth: vc.callDepth + 1,
+		assumedContracts: vc.assumedContracts, sweep: true, origins: vc.origins, ghost: vc.ghost, strKeys: vc.strKeys}
+	sub.loopOrd, _ = numberLoops(lit.Body)
+	inner := st.clone()
+	for _, f := range lit.Type.Params.List {
+		for _, n := range f.Names {
+			if o, ok := vc.info.Defs[n].(*types.Var); ok && o != nil {
+				inner.vars[o] = vc.freshVal(o.Type(), n.Name)
+			}
+		}
+	}
+	var rts []*types.Var
+	if lit.Type.Results != nil {
+		for _, f := range lit.Type.Results.List {
+			t := vc.info.TypeOf(f.Type)
+			cnt := len(f.Names)
+			if cnt == 0 {
+				cnt = 1
+			}
+			for i := 0; i < cnt; i++ {
+				o := types.NewVar(token.NoPos, vc.fi.Obj.Pkg(), fmt.Sprintf("closure_res%d", len(rts)), t)
+				rts = append(rts, o)
+				sub.resObjs = append(sub.resObjs, o)
+				inner.vars[o] = zeroVal(t)
+			}
+		}
+	}
+	sub.inlineMode = true
+	f := sub.execBlock(lit.Body.List, inner)
+	if f.normal != nil {
+		sub.rets = append(sub.rets, f.normal)
+	}
+	vc.log, vc.obls, vc.freshN = sub.log, sub.obls, sub.freshN
+	tup := types.NewTuple(rts...)
+	if sub.outOfSubset != "" {
+		vc.abstraction("inline of closure failed: " + sub.outOfSubset)
+		vc.havocAll(st, "closure")
+		return vc.opaque(tup, "closure")
+	}
+	ret := sub.joinAll(sub.rets)
+	if ret == nil {
+		return vc.opaque(tup, "closure")
+	}
+	for o := range st.vars {
+		if v, ok := ret.vars[o]; ok {
+			st.vars[o] = v
+		}
+	}
+	for k, h := range ret.heaps {
+		st.heaps[k] = h
+	}
+	st.epoch = ret.epoch
+	var c []*Term
+	for _, o := range rts {
+		c = append(c, ret.vars[o].C...)
+	}
+	return Val{T: tup, C: c}
 }
